@@ -316,6 +316,11 @@ impl<S: Read + Write> Client<S> {
 
     }
 
+    /// Number of bytes already received by the link layer
+    pub fn buffered_read_size(&self) -> RdpResult<usize> {
+        self.x224.buffered_read_size()
+    }
+
     /// Send a close event to server
     pub fn shutdown(&mut self) -> RdpResult<()> {
         self.x224.write(trame![
